@@ -93,7 +93,17 @@ pub enum Expect {
     RejectSequence,
     /// no-allocator capacity exceeded: `Err` required
     RejectCapacity,
-    /// not judged (invalid numbering, '*' embedded in a field, unknown monitor state)
+    /// zone U1: a '*' inside the address, channel or payload field. Which text "the transmitted
+    /// value" is, is ambiguous (after the FIRST '*', as C02 reads literally, or after the structural
+    /// one, as C08 and the pinned code read it) — but under every reading the COMPUTED side is the XOR
+    /// of the bytes between the delimiter and the first '*'. So: if the line is accepted, that XOR must
+    /// equal one of the two candidate transmitted values; a checksum error must carry it as `found`.
+    EmbeddedStar {
+        xor_first: u8,
+        transmitted_structural: u8,
+        transmitted_after_first: Option<u32>,
+    },
+    /// not judged (invalid numbering, unknown monitor state)
     Unjudged(&'static str),
 }
 
@@ -108,7 +118,14 @@ pub fn step(st: &MState, line: &[u8], decode: bool, noalloc: bool) -> (Expect, M
     }
     if p.embedded_star {
         // U1: which value "the checksum" is, is ambiguous; the line may be accepted or rejected
-        return (Expect::Unjudged("U1: '*' inside a field"), MState::Unknown);
+        return (
+            Expect::EmbeddedStar {
+                xor_first: p.xor,
+                transmitted_structural: p.transmitted,
+                transmitted_after_first: super::line::hex_after_first_star(line),
+            },
+            MState::Unknown,
+        );
     }
     if !p.checksum_ok() {
         return (
